@@ -1,10 +1,16 @@
 //! `vh` — the Rust side of /verif: drivers that run the real samlang code and record
 //! traces for the TLA+ specifications, and replayers for TLC-generated behaviours.
 mod compile;
+mod edits;
 mod exec;
 mod heap;
+mod patterns;
+mod positions;
+mod progs;
 mod server;
 mod server_gen;
+mod syntax;
+mod syntax_gen;
 mod util;
 
 fn main() {
@@ -13,14 +19,23 @@ fn main() {
   let rest = &args[2.min(args.len())..];
   match cmd {
     "compile" => compile::main(rest),
+    "run-programs" => progs::main(rest),
+    "edits-run" => edits::run(rest),
     "heap-drive" => heap::drive(rest),
     "heap-replay" => heap::replay(rest),
     "ts-run" => exec::ts_run::main_run(rest),
     "ts-erase" => exec::ts_run::main_erase(rest),
     "wasm-run" => exec::wasm_interp::main(rest),
+    "patterns-replay" => patterns::replay(rest),
+    "positions-gen" => positions::gen(rest),
+    "positions-run" => positions::run(rest),
     "server-gen" => server_gen::main(rest),
     "server-show" => server::show(rest),
     "server-replay" => server::replay(rest),
+    "syntax-trees" => syntax::trees(rest),
+    "syntax-modules" => syntax::modules(rest),
+    "syntax-strings" => syntax::strings(rest),
+    "syntax-one" => syntax::one(rest),
     _ => {
       eprintln!("usage: vh <subcommand> ...");
       std::process::exit(2);
